@@ -2,7 +2,8 @@
    RSA verification, JSON and base64 are oracles (the abstract token record); the
    unsynchronised access to the key map (F5) is a runtime fact outside the model.
    Only statements here. *)
-From Chihaya Require Import Model.Jwt Proofs.JwtP.
+From Chihaya Require Import Model.Jwt Proofs.JwtP Proofs.OverlapP.
+From Chihaya Require Glue.G15.
 Open Scope Z_scope.
 
 (* accept <-> RS256 signature verifies under the key currently published under the token's kid,
@@ -158,6 +159,16 @@ Theorem C15_two_fetchers_register_goes_back :
               map f_reg (ftrace (finit 0) evs) = [0; 0; 0; 1; 0]%nat.
 Proof. exact two_fetchers_register_goes_back. Qed.
 Print Assumptions C15_two_fetchers_register_goes_back.
+
+(* the judge of the refresh-overlap cases (Glue/G15.chk_overlap) accepts a log EXACTLY when the announces can be assigned
+   key-set versions that explain every verdict, each between the newest version a returned refresh carried when the
+   announce started and the newest version served when it ended, never going back from one announce to the next *)
+Theorem C15_overlap_checker_decides :
+  forall i a vs evs,
+    snd (G15.chk15 (G15.COverlap i a vs evs)) = 0 <->
+    exists assign, Explains {| cfg_iss := i; cfg_aud := a |} vs evs 0 0 0 0 assign.
+Proof. exact overlap_verdict_iff. Qed.
+Print Assumptions C15_overlap_checker_decides.
 
 (* F4: the pre-fix hook (jws.Verify only) accepts a token that is expired / not yet valid at `now` *)
 Theorem C15_jwt_legacy_ignores_exp_refuted :
